@@ -152,10 +152,11 @@ class IOBase(Communicator):
         """
         self._conn.disconnect()
         self._conn = None
-        self.is_connected = False
         if not self._last_error:
             # the next successful connect is a reconnect: callbacks have to be called
+            # (to be marked before the state is published: from then on an other thread may reconnect)
             self._last_error = 'disconnected'
+        self.is_connected = False
 
     def doPoll(self):
         self.read_is_connected()
